@@ -10,6 +10,10 @@ A_NOTE = ("Trusted: std::sync::mpsc and the 30-line native transport (the simula
           "hash-iteration order pinned by the hooks; scenario templates over a stated grid.")
 
 CHECKS = {
+    "C02": dict(engine="enum", category="exploration", design="5.2, 5.3, 7/C02, Appendix A",
+                technique="bounded-exhaustive enumeration of core-language programs (all programs up to n nodes and all cores x contexts) differentially executed against an independent reference interpreter of docs/spec.md",
+                text="Every program of the core grammar with <= 3 (thorough 4) nodes and every core of <= 2 (thorough 3) nodes in each of 25 contexts is parsed, compiled with the real compiler, run on the real VM, and compared with a direct AST interpreter of docs/spec.md written independently of the compiler (no bytecode, no simplify); compiler-rejected programs and programs on which the reference abstains (spec silent) are counted, not judged; disagreements are shrunk to minimal cores.",
+                note="The reference evaluator is a reading of docs/spec.md; it abstains where the spec is silent. Function values compare as 'a function'."),
     "C07": dict(engine="bcverify", category="model_checking", design="6, 7/C07",
                 technique="explicit-state reachability over the abstract machine states (pc, operand height, locals count) of every emitted function, with trace conformance against the real VM",
                 text="For every function of every accepted program (std, test-suite literals, spec examples, Engine-A scenarios, tail-call probes, and all programs of the core grammar up to n nodes) in four forms (as compiled, tree-shaken, JSON round trip, merged cumulatively into a running environment): all reachable (pc, h, l) states are visited and jump ranges, operand underflow, single height per pc, exit height 1, Load/Reset within the locals defined on every path, TailCall heights, and every table index are checked. The abstraction is bound to the VM by replaying real executions with the per-instruction trace hook (a disagreement is a machinery failure).",
